@@ -426,7 +426,7 @@ def _grid() -> list[dict[str, Any]]:
 
 
 def main(chk: Check) -> None:
-    chk.explore("history", histories, run_history, quick=600, thorough=12000)
-    chk.explore("focused", focused, run_focused, quick=250, thorough=4000)
+    chk.explore("history", histories, run_history, quick=450, thorough=12000)
+    chk.explore("focused", focused, run_focused, quick=150, thorough=4000)
     complete = chk.enumerate("bitflips_truncations", _grid(), run_focused)
     chk.extra["grid_complete"] = bool(complete)
